@@ -10,7 +10,7 @@ DRIVER = "C12"
 TIMEOUT = 1500
 
 RULE = ("savefiles of generated applications (C12's family: preset selectors with dependent defaults, toggles that "
-        "allocate a pointer sub-tree, enabled-by on embedded sub-trees (also by a port inside the sub-tree), rDepends lists, up to 3 levels, enumerated "
+        "allocate a pointer sub-tree, enabled-by on embedded sub-trees (also by a port inside the sub-tree, and tables switched as a whole by one of their own ports: rSelf(.., rEnabledBy(x))), rDepends lists, up to 3 levels, enumerated "
         "sub-trees) in states reached by 3..12 random parameter messages; the message lines are permuted: ALL "
         "permutations up to 6 lines (quick: always up to 4 lines, for every 4th file up to 6), random permutations "
         "beyond; plus sub-files from which depended-on lines (selectors, switches together with their sub-tree) are "
@@ -35,7 +35,8 @@ def gen(rng, tier, dist):
     for c in range(n):
         static = c % 5 == 4
         opts = {"p_soft": 0.6 if rng.random() < 0.5 else 0.0, "p_sel": 0.8, "p_ptr": 0.7,
-                "p_rdep": 0.7, "p_nodef": 0.03, "p_inner": 0.5 if rng.random() < 0.3 else 0.0}
+                "p_rdep": 0.7, "p_nodef": 0.03, "p_inner": 0.5 if rng.random() < 0.3 else 0.0,
+                "p_self": 0.5 if rng.random() < 0.3 else 0.0}
         app = sc.static_app() if static else sc.gen_app(rng, opts)
         ref = sc.Ref(app)
         if not ref.flat:
